@@ -312,6 +312,8 @@ func genRetransmit(g *gen, repo string) {
 	// midElement.IsExpired: `!m.deadline.IsZero() && now.After(m.deadline)` -> true ; `return retransmit >= maxRetransmit`
 	ie := funcDecl(f, "midElement", "IsExpired")
 	deadlineStrict := false
+	waitsLast := false
+	var lastAddend uint64
 	var expOp token.Token
 	ast.Inspect(ie, func(x ast.Node) bool {
 		switch v := x.(type) {
@@ -323,7 +325,28 @@ func genRetransmit(g *gen, repo string) {
 			}
 		case *ast.ReturnStmt:
 			if len(v.Results) == 1 {
-				if b, ok := v.Results[0].(*ast.BinaryExpr); ok && identName(b.X) == "retransmit" && identName(b.Y) == "maxRetransmit" {
+				res := v.Results[0]
+				// `retransmit OP maxRetransmit` alone, or `… && now.After(m.start.Add(acknowledgeTimeout*time.Duration(retransmit+K)))`:
+				// exhaustion is reported only when the timeout of the last copy has passed as well
+				if b, ok := res.(*ast.BinaryExpr); ok && b.Op == token.LAND {
+					if c, ok := b.Y.(*ast.CallExpr); ok && drDotted(c.Fun) == "now.After" && len(c.Args) == 1 {
+						if a, ok := c.Args[0].(*ast.CallExpr); ok && drDotted(a.Fun) == "m.start.Add" && len(a.Args) == 1 {
+							if mul, ok := a.Args[0].(*ast.BinaryExpr); ok && mul.Op == token.MUL && identName(mul.X) == "acknowledgeTimeout" {
+								if conv, ok := mul.Y.(*ast.CallExpr); ok && drDotted(conv.Fun) == "time.Duration" && len(conv.Args) == 1 {
+									if sum, ok := conv.Args[0].(*ast.BinaryExpr); ok && sum.Op == token.ADD && identName(sum.X) == "retransmit" {
+										waitsLast = true
+										lastAddend = drConstExpr(sum.Y)
+										res = b.X
+									}
+								}
+							}
+						}
+					}
+					if !waitsLast {
+						fail("midElement.IsExpired: conjunction not recognised")
+					}
+				}
+				if b, ok := res.(*ast.BinaryExpr); ok && identName(b.X) == "retransmit" && identName(b.Y) == "maxRetransmit" {
 					expOp = b.Op
 				}
 			}
@@ -453,6 +476,7 @@ func genRetransmit(g *gen, repo string) {
 	fmt.Fprintf(&b, "/-- udp/client/config.go: DefaultConfig transmission parameters (values computed by the Go compiler) -/\ndef defaultNStart : Nat := %d\ndef defaultAckTimeoutNs : Nat := %d\ndef defaultMaxRetransmit : Nat := %d\n",
 		cfg.TransmissionNStart, int64(cfg.TransmissionAcknowledgeTimeout), cfg.TransmissionMaxRetransmit)
 	fmt.Fprintf(&b, "/-- midElement.IsExpired: entry is dropped when `retransmit >= maxRetransmit` (true) or `>` (false) (AST) -/\ndef expiredWhenGE : Bool := %s\n", drLeanBool(expOp == token.GEQ))
+	fmt.Fprintf(&b, "/-- midElement.IsExpired: exhaustion also needs `now.After(start.Add(ackTimeout * (retransmit + lastCopyAddend)))`, the timeout of the last copy (AST) -/\ndef exhaustionWaitsLastTimeout : Bool := %s\ndef lastCopyAddend : Nat := %d\n", drLeanBool(waitsLast), lastAddend)
 	fmt.Fprintf(&b, "/-- midElement.IsExpired: the deadline test is the strict `now.After(deadline)` (AST) -/\ndef deadlineStrict : Bool := %s\n", drLeanBool(deadlineStrict))
 	fmt.Fprintf(&b, "/-- midElement.Retransmit: `now.After(start.Add(ackTimeout * (retransmit + addend)))`, then one increment (AST) -/\ndef retransmitAddend : Nat := %d\n", addend)
 	fmt.Fprintf(&b, "/-- checkMidHandlerContainer tests expiry (delete, no write) before the retransmit decision (AST) -/\ndef expiryBeforeRetransmit : Bool := %s\n", drLeanBool(expFirst))
